@@ -343,7 +343,7 @@ func ExtractSchema(text string) (*SchemaContent, error) {
 				}
 				fs = append(fs, fmt.Sprintf("%v:%s", fm["name"], t))
 			}
-			s.addType(name, "record" + typeParams(m) + "{" + strings.Join(fs, ";") + "}")
+			s.addType(name, "record"+typeParams(m)+"{"+strings.Join(fs, ";")+"}")
 		case m["values"] != nil:
 			var vs []string
 			for _, v := range m["values"].([]any) {
@@ -351,13 +351,13 @@ func ExtractSchema(text string) (*SchemaContent, error) {
 				vs = append(vs, fmt.Sprintf("%v=%v", vm["symbol"], vm["value"]))
 			}
 			base, _ := m["base"].(string)
-			s.addType(name, "enum(" + base + "){" + strings.Join(vs, ",") + "}")
+			s.addType(name, "enum("+base+"){"+strings.Join(vs, ",")+"}")
 		case m["type"] != nil:
 			t, err := extractType(m["type"])
 			if err != nil {
 				return nil, err
 			}
-			s.addType(name, "alias" + typeParams(m) + "=" + t)
+			s.addType(name, "alias"+typeParams(m)+"="+t)
 		default:
 			return nil, fmt.Errorf("unrecognised type entry %v", m)
 		}
